@@ -45,7 +45,7 @@ CHECKS = {
         'slot and a function-pointer cast rendered from the same signature; stack effect and result declaration are right. On a module with '
         'two imports and three functions the call emitter, the import/function declarations, the definitions, the export wrappers, the element '
         'stores, the start call and the symbol-prefixed variants all spell the same identifier for the same module-level index and pick the '
-        'type through imports first; WASI imports are spelled exactly as the symbols wasi.c defines.',
+        'type through imports first; WASI imports are spelled exactly as the symbols wasi.c defines. A call or call_indirect in unreachable code, translated from bytes (minimal and padded LEB128), consumes exactly its immediates and emits nothing (R04.6).',
    note='Runtime table bounds/signature checks are outside the property; the C ABI is trusted.',
    ref='DESIGN.md 4/C04'),
  'C05': dict(
@@ -55,7 +55,7 @@ CHECKS = {
         'one byte copy of the access width with the row\'s sign/zero extension (loads) or of the wrapped low bits (stores). '
         'memory.grow is summarised path by path: wrap and maximum guards dominate success, failure paths store nothing, the old '
         'page count is returned, the reallocated tail is zeroed before data is republished. memory.copy reaches memmove, fill '
-        'memset, init LOAD_DATA with (dest, src, n) roles; memory.size reads the page count.',
+        'memset, init LOAD_DATA with (dest, src, n) roles; memory.size reads the page count. Every access is also emitted with the concrete static offsets 1, 2^31-1, 2^31, 2^31+16 and 2^32-1 and the emitted address expression is evaluated (C semantics, 64 bit) for two base addresses: it equals base + offset.',
    note='In-bounds accesses only (as the property); host memcpy/memmove/memset trusted; page arithmetic for all deltas decided '
         'only as guard presence/position; max==0 sentinel for "no maximum" is noted, not decided. Little-endian configuration (big-endian is C19).',
    ref='DESIGN.md 4/C05'),
@@ -67,7 +67,7 @@ CHECKS = {
         '(defined or imported) memory reachable from Instantiate; element stores target the right table with offset+k and module-level '
         'function identifiers. The instance record holds imports as pointers and defined state by value, no mutable file-scope state is '
         'emitted, imports are bound via resolve("module","name") with the right pointer type, globals are initialised through imported '
-        'pointers, non-shared memories are allocated per instance and shared ones inherited, export wrappers and the FuncExports table are exact.',
+        'pointers, non-shared memories are allocated per instance and shared ones inherited, export wrappers and the FuncExports table are exact. Import and export names reach resolve() / the export table as C string literals denoting exactly the name\'s bytes (R06.9, shared with C11).',
    note='What the embedder\'s resolver returns, allocation failure and calloc semantics are outside the analysis.',
    ref='DESIGN.md 4/C06'),
  'C07': dict(
@@ -76,7 +76,7 @@ CHECKS = {
         'IEEE-754 classes (NaN -> bit-exact hex reinterpret, +-inf, -0, finite -> >=9/17-digit decimal), that integer '
         'literal forms and format length modifiers preserve all bits, that each const opcode is decoded by the reader '
         'of its own width into an integer field, and that all three constant positions go through that one renderer. '
-        'Exhaustive over the finite abstraction; stronger than sampling because the abstraction cells cover every bit pattern.',
+        'Exhaustive over the finite abstraction; stronger than sampling because the abstraction cells cover every bit pattern. Integer helpers are decided on the digits they append for boundary values including powers of ten and zero digit groups, whatever their shape.',
    note='Trusted: clang front end; correctly rounded host printf and C literal parsing; union same-size type punning. '
         'Not decided: the run-time value the C compiler assigns to the literal.',
    ref='DESIGN.md 4/C07'),
@@ -102,7 +102,7 @@ CHECKS = {
         'function or casts away const from module data; the stateful debug-line cursor reaches workers only under threadCount == 1. The '
         'split loops append each function exactly once to exactly one list before advancing, static only under hash equality with the '
         'consumed reference entry. For about 650 template pairs the pretty and compact forms have the same typed AST and symbol prefixing '
-        'only prefixes callee identifiers; all File/String twin emitters agree on a grid of names/indices/flags.',
+        'only prefixes callee identifiers; all File/String twin emitters agree on a grid of names/indices/flags. The getopt option string and the option switch agree on which options take an argument (R09.12); the export-section reader records the export name of every defined function, the first one included, which -g consults (R09.13).',
    note='Not decided: byte-identical output and deadlock freedom under every interleaving (schedule-quantified; the rules are the structural '
         'necessary conditions), the file-count arithmetic for all (n, f), -g/-r behaviour beyond these rules, compile-on-its-own of every emitted file.',
    ref='DESIGN.md 4/C09'),
@@ -115,7 +115,7 @@ CHECKS = {
         'of the accessed length with the same buffer\'s length whose failing edge leaves the path (the consumed-bytes adjustment in the code '
         'section reader is recognised as an idiom); pointers flowing interprocedurally from the two locations the code itself treats as '
         'possibly NULL (writer-task debugLines, per-function name slots) are never dereferenced or passed to a library function without a '
-        'dominating NULL test; hex escapes of name bytes format an unsigned byte. These are necessary conditions of memory safety.',
+        'dominating NULL test; hex escapes of name bytes format an unsigned byte. These are necessary conditions of memory safety. SHA1Update (every function body is hashed) is evaluated on lengths around the block boundaries for every buffer fill: all block reads and copies stay inside the input and the context buffer (R10.16).',
    note='Not decided: termination and memory safety for every module as a whole (index arithmetic on type/label stacks relies on module '
         'validity), allocation failure, PATH_MAX-sized path copies (axiom), libdwarf-only consumers. Distinct access paths in one function '
         'are assumed not to alias.',
@@ -129,7 +129,7 @@ CHECKS = {
         'guard and (signed) a MIN/-1 guard, every float-to-int conversion sits under a range guard, no runtime access function '
         'dereferences linear memory through a typed pointer. The TU of all templates is accepted by gcc and clang as GNU C89 '
         '(thorough: C99/C11/C17) with implicit declarations and pointer/int mismatches as errors. Import and export names with quotes, '
-        'backslashes, control and non-ASCII bytes are emitted as C string literals that lex back to the same bytes.',
+        'backslashes, control and non-ASCII bytes are emitted as C string literals that lex back to the same bytes. The function-export table is declared with room for every row and the terminator (R11.14).',
    note='Same results across compilers/-O levels is argued from absence of these UB classes plus single-assignment template shape; the C '
         'compilers themselves are trusted. Exact trap boundaries of float-to-int are decided in C02. Debug-mode #line paths and __asm__ labels are not covered.',
    ref='DESIGN.md 4/C11'),
@@ -153,7 +153,7 @@ CHECKS = {
         'constant on success. All 44 descriptor-taking entry points (22 imports x 2 generations) are then partially evaluated '
         'on that closed record and on an out-of-range index with all other arguments unknown: no native call, no string or free '
         'operation on a descriptor field, and EBADF on every path. Because indices are never reused and the closed state is a '
-        'single constant record, this decides "invalid after close" for all call sequences.',
+        'single constant record, this decides "invalid after close" for all call sequences. path_open reports the number the table issued as a full u32 (R13.9).',
    note='Host close/closedir outcomes, allocation failure and descriptor exhaustion are not considered; imports that are '
         'unimplemented upstream (unconditional ENOSYS) are listed in the evidence but not decided.',
    ref='DESIGN.md 4/C13'),
@@ -165,7 +165,7 @@ CHECKS = {
         'coefficient-wise, by a guard of its path (so an off-by-one in either guard is reported with the offending index expression), the '
         'empty path is rejected, absolute paths are copied unchanged, a separator is inserted iff needed; descriptor paths satisfy 0 < len < PATH_MAX. '
         'fd_readdir, for {stream open, closed} x {cookie 0, unknown}: the first readdir() is always preceded by opendir/seekdir/rewinddir; dirent '
-        'fields are stored at the witx offsets with telldir/inode/strlen values, the name follows the record, bufused = buflen signals a full buffer.',
+        'fields are stored at the witx offsets with telldir/inode/strlen values, the name follows the record, bufused = buflen signals a full buffer. Every path import is additionally evaluated with concrete resolved paths (root, doubled and trailing separators): the bytes handed to the host call are the resolved path, for rmdir/mkdir up to trailing separators (R14.12). The errno table has rows for the errors POSIX requires of the named operations (ENOTEMPTY, ELOOP, ENAMETOOLONG, EOVERFLOW).',
    note='Host directory semantics (stable telldir cookies), completeness of a listing across calls and symlink-follow flags are not decided. '
         'The unbounded strcat in the lstat fallback of fd_readdir is recorded as a note (not replayable here).',
    ref='DESIGN.md 4/C14'),
@@ -177,7 +177,7 @@ CHECKS = {
         '64 bits as u64. Every getentropy() length is bounded by 256 through a guard of its path and the chunks add up to the request. '
         'proc_exit reaches exit(code). thread-spawn: counter starts at 1, one atomic fetch-add, negative result and no allocation without the '
         'wasi_thread_start export, start record = {newChild(instance), arg, id, export}, the thread body reads all fields before the single '
-        'free and calls start exactly once.',
+        'free and calls start exactly once. A thread\'s instance takes the parent\'s descriptor of every module-defined shared memory, whatever its position in the memory index space (R15.6).',
    note='Clock monotonicity, randomness quality, that exit() terminates and thread scheduling are not decided; the /dev/random fallback '
         '(HAS_GETENTROPY=0 builds) is not analysed in the quick tier.',
    ref='DESIGN.md 4/C15'),
@@ -186,7 +186,7 @@ CHECKS = {
    text='All 63 atomic access flavours (0xFE 0x10-0x4E) are followed from the sub-opcode through the emitter to the runtime function; '
         'its summary must consist of exactly one seq_cst __atomic builtin of the row\'s operation on an object of the access width, fed '
         'with operands wrapped to that width and returning the zero-extended old (cmpxchg: observed) value; the emitter accepts exactly '
-        'the natural alignment and rejects any other; effective address and operand roles as for plain accesses.',
+        'the natural alignment and rejects any other; effective address and operand roles as for plain accesses. In the mutex-based configuration every read-modify-write flavour is also evaluated on concrete bytes and operands (R16.5).',
    note='Atomicity and sequential consistency of the builtins on the host are trusted; linearizability over interleavings is not decided '
         '(it follows from single-builtin bodies under that trust). Little-endian configuration; the big-endian lock regions are decided in C19.',
    ref='DESIGN.md 4/C16'),
@@ -197,7 +197,7 @@ CHECKS = {
         'condition waits, 3 queued waiters with unknown status for notify) keeps all futex state inside one balanced lock region, '
         'never unlocks between the expected-value load and the enqueue, waits on the protocol mutex, re-tests status under the lock, '
         'derives 0/1/2 from what it observed, unlinks before freeing, removes the map entry only for an empty list; notify flips only '
-        'nodes observed Waiting, signals each once, is bounded by count and returns the number flipped.',
+        'nodes observed Waiting, signals each once, is bounded by count and returns the number flipped. A lock-free load of the cell may answer not-equal; the decision to sleep rests on the last load, made under the mutex and compared with the expected value.',
    note='Structural premises only: absence of lost wake-ups/deadlock over all interleavings, hash collisions and timeout arithmetic '
         'are not decided (model-checking territory). pthread semantics and the map/list primitives are trusted.',
    ref='DESIGN.md 4/C17'),
@@ -205,7 +205,7 @@ CHECKS = {
    technique='static lock-set consistency over partial-evaluation path summaries (ordered read/write/lock/unlock traces of the memory descriptor); mutex balance of every runtime function that takes the memory mutex in both atomics configurations; rendered InitMemories for every limits pair',
    text='On every shared path of wasmMemoryGrow all reads and writes of pages/size lie inside the single, balanced lock region of the '
         'memory mutex; shared memories are never reallocated or given a new data pointer; failed grows store nothing; the memory.size '
-        'template reads the page count through an accessor whose summary holds the mutex (a plain field read is reported).',
+        'template reads the page count through an accessor whose summary holds the mutex (a plain field read is reported). A size-publishing function clears storage only inside the lock region and before the page count is stored.',
    note='Decides the structural premises of linearizability (consistent lock set, balanced regions), not the interleaving semantics; '
         'pthread mutex semantics trusted; fairness not addressed.',
    ref='DESIGN.md 4/C18'),
@@ -225,7 +225,7 @@ CHECKS = {
         'sprintf whose prefix flows from the literals s/d, or to the literal "datasegments"; inputs are opened read-only; chdir(dirname(output)) '
         'dominates writer and cleaner; remove() occurs only in the cleaner, which runs only under -c. The set of names that reach remove() '
         'is computed exactly for every name length 0..20 and equals [sd][0-9]{10}.c in both directions; the writer\'s format, index '
-        'width and buffer size agree with it.',
+        'width and buffer size agree with it. Option string and option switch agree on which options take an argument (R20.8) - otherwise the operands shift and the output lands on the input path.',
    note='Symlinks in the output directory, the behaviour of glob()/basename() and races with other processes are outside the analysis.',
    ref='DESIGN.md 4/C20'),
 }
